@@ -534,14 +534,377 @@ def check_fnapi_tables(ctx):
         ctx.extra_disagreements.append(('fnapi table', case, f'{name}(batch) = {got}, {cls}().add(batch).{attr} = {want}'))
 
 
+# ----------------------------------------------------------------------------- wiring tables (translate/wiring.py)
+#
+# lean/MlModel/Generated/Wiring.lean + wiring.json (written by translate/wiring.py in the regenerate step) hold, as
+# data, every public function of metrics/classification.py (metric requested, keyword plumbing), the decision trees
+# of ClassificationAggFn.__init__ / the _calculate_confusion_matrix methods, and the field-wise sums of
+# _ConfusionMatrix.  Theorems: Properties/C07/GeneratedWiring.lean, Properties/C11/GeneratedCm.lean.
+# Self-check (cases of kind "wiring"): every function f of the table is CALLED on inputs on which each keyword
+# matters; the model side is the Lean `oneShot` on the configuration THE TABLE says f builds (its metric, its
+# keyword plumbing); the oracle is the textbook value of the metric NAMED f under the caller's keywords (the
+# independent oracle of harness/agg/classification.py) and function API == accumulator API.
+
+WIRING_SCENARIOS = ('default', 'pos_label', 'input_type', 'average_vocab', 'k_list', 'samples')
+
+
+def wiring():
+  return json.load(open(os.path.join(LEAN_DIR, 'MlModel', 'Generated', 'wiring.json')))
+
+
+_WIRING = {}
+
+
+def wiring_cached():
+  if 'w' not in _WIRING:
+    _WIRING['w'] = wiring()
+  return _WIRING['w']
+
+
+def gen_wiring_case(rng, w, scen):
+  """a call of the one-shot function w['name'] on which the keyword(s) of scenario `scen` change the result"""
+  name = w['name']
+  n = rng.choice([4, 6, 8])
+  cfg = dict(metrics=[name], single=True, pos_label=1, input_type='binary', average='binary', vocab=None, k_list=None)
+  if scen == 'default':
+    b = {'yt': {'flat': [1, 0] + [rng.choice([0, 1]) for _ in range(n)]},
+         'yp': {'flat': [0, 1] + [rng.choice([0, 1]) for _ in range(n)]}}
+  elif scen == 'pos_label':      # labels {0, 2}: the default pos_label=1 is rejected by verify_input
+    b = {'yt': {'flat': [2, 0] + [rng.choice([0, 2, 2]) for _ in range(n)]},
+         'yp': {'flat': [0, 2] + [rng.choice([0, 2]) for _ in range(n)]}}
+    cfg.update(pos_label=2)
+  elif scen == 'input_type':     # multiclass micro: three classes
+    b = {'yt': {'flat': [0, 1, 2] + [rng.choice([0, 1, 2]) for _ in range(n)]},
+         'yp': {'flat': [1, 1, 0] + [rng.choice([0, 1, 2]) for _ in range(n)]}}
+    cfg.update(input_type='multiclass', average='micro', vocab=[[0, 0], [1, 1], [2, 2]])
+  elif scen == 'average_vocab':  # macro over a vocabulary with a class the batch never shows
+    b = {'yt': {'flat': [0, 1, 2] + [rng.choice([0, 1, 2]) for _ in range(n)]},
+         'yp': {'flat': [1, 1, 0] + [rng.choice([0, 1, 2]) for _ in range(n)]}}
+    cfg.update(input_type='multiclass', average='macro', vocab=[[0, 0], [1, 1], [2, 2], [3, 3]])
+  elif scen == 'k_list':         # rankings: top-1 differs from all predictions
+    labels = [0, 1, 2, 3]
+    b = {'yt': {'nested': [rng.sample(labels, rng.choice([1, 2])) for _ in range(n)]},
+         'yp': {'nested': [rng.sample(labels, 3) for _ in range(n)]}}
+    cfg.update(input_type='multiclass-multioutput', average='micro', vocab=[[l, l] for l in labels],
+               k_list=rng.choice([[1], [2], [1, 2]]))
+  else:                          # samples average over indicator rows
+    b = {'yt': {'nested': [[rng.choice([0, 1, 1]) for _ in range(3)] for _ in range(n)]},
+         'yp': {'nested': [[rng.choice([0, 1]) for _ in range(3)] for _ in range(n)]}}
+    cfg.update(input_type='multiclass-indicator', average='samples')
+  if name == 'classification_metrics':
+    cfg.update(metrics=['precision', 'recall', 'specificity'], single=False)
+  return {'t': 'wiring', 'scenario': scen,
+          'inner': {'t': 'run', 'kind': 'wrapper', 'cfg': cfg, 'shards': [[b]], 'trees': [0], 'fn': name}}
+
+
+def table_cfg(case):
+  """the configuration the TABLE says the function builds from the caller's keywords, or None if the plumbing is
+  ill-typed for the model (e.g. pos_label=input_type)"""
+  W = wiring_cached()
+  inner = case['inner']
+  w = next((x for x in W['wrappers'] if x['name'] == inner['fn']), None)
+  if w is None:
+    return None
+  user = inner['cfg']
+  kw = {k: v for k, v in w['kw']}
+  defaults = {k: v for k, v in W['init']['defaults']}
+  enum_vals = W['enums']['ConfusionMatrixMetric']
+  out = dict(user)
+
+  def value(key):
+    src = kw.get(key)
+    if src is None:                      # keyword not passed: the default of ClassificationAggFn.__init__
+      src = ['lit', defaults.get(key, ['none'])]
+    if src[0] == 'param':
+      if src[1] == 'metrics':
+        return ('metrics', user['metrics'], user['single'])
+      return user.get(src[1], ('?',))
+    if src[0] == 'lit':
+      c = src[1]
+      return None if c[0] == 'none' else c[1]
+    if src[0] == 'member':
+      return ('metrics', [enum_vals[src[1]]], True)
+    return ('?',)
+
+  m = value('metrics')
+  if not (isinstance(m, tuple) and m[0] == 'metrics'):
+    return None
+  out['metrics'], out['single'] = list(m[1]), m[2]
+  for key, ok in (('pos_label', lambda v: isinstance(v, (int, str)) and not isinstance(v, bool)),
+                  ('input_type', lambda v: isinstance(v, str)), ('average', lambda v: isinstance(v, str)),
+                  ('vocab', lambda v: v is None or (isinstance(v, list) and all(isinstance(x, list) for x in v))),
+                  ('k_list', lambda v: v is None or (isinstance(v, list) and all(isinstance(x, int) for x in v)))):
+    v = value(key)
+    if isinstance(v, tuple) or not ok(v):
+      return None
+    out[key] = v
+  # utils.verify_input must see the caller's own arguments in its own order; anything else is outside the model
+  want = [[p, ['param', p]] for p in ('y_true', 'y_pred', 'average', 'input_type', 'vocab', 'pos_label')]
+  if w['verify'] != want or w['applied'] != [['param', 'y_true'], ['param', 'y_pred']]:
+    return None
+  return out
+
+
+class Wiring:
+  """cases of kind 'wiring' (routed here by C07.run_impl / model_requests / ...)"""
+
+  @staticmethod
+  def gen_cases(ctx):
+    W = wiring_cached()
+    for w in W['wrappers']:
+      for scen in WIRING_SCENARIOS:
+        for _ in range(1 if ctx.quick else 8):
+          ctx.count('wiring wrapper', w['name'])
+          ctx.count('wiring scenario', scen)
+          yield gen_wiring_case(ctx.rng, w, scen)
+
+  @staticmethod
+  def run_impl(case):
+    from harness.agg import classification as cf
+    return cf.C07.run_impl(case['inner'])
+
+  @staticmethod
+  def model_requests(case):
+    from harness.agg import classification as cf
+    cfg = table_cfg(case)
+    if cfg is None:
+      return []
+    return cf.C07.model_requests(dict(case['inner'], cfg=cfg))
+
+  @staticmethod
+  def model_obs(case, resps):
+    from harness.agg import classification as cf
+    cfg = table_cfg(case)
+    if cfg is None or not resps:
+      return {'fn': {'err': 'the wiring table has no meaning in the model (ill-typed plumbing)'}, 'acc': {}}
+    return cf.C07.model_obs(dict(case['inner'], cfg=cfg), resps)
+
+  @staticmethod
+  def compare(a, b):
+    from harness.agg import classification as cf
+    if 'fn' not in a or 'fn' not in b:
+      return 'wiring: malformed observation'
+    fa, fb = dict(a['fn']), dict(b['fn'])
+    fa.pop('stage', None), fb.pop('stage', None)
+    # only the FUNCTION is compared with the table-built model (the accumulator side of the inner case is configured
+    # by the function's NAME and is judged by the oracle)
+    if not deep_close_(fa, fb):
+      return f'function returns {fa}, the configuration of the generated table gives {fb}'
+    return None
+
+  @staticmethod
+  def oracle(case, obs):
+    from harness.agg import classification as cf
+    return cf.C07.oracle(case['inner'], obs)
+
+  @staticmethod
+  def nontrivial(case, obs):
+    return 'err' not in obs.get('fn', {})
+
+  @staticmethod
+  def finding(case, what):
+    from harness.agg import classification as cf
+    return cf.finding_class(case['inner'], what)
+
+  @staticmethod
+  def neighbours(case, rng):
+    W = wiring_cached()
+    w = next((x for x in W['wrappers'] if x['name'] == case['inner']['fn']), None)
+    if w is None:
+      return
+    for _ in range(30):
+      for scen in WIRING_SCENARIOS:
+        yield gen_wiring_case(rng, w, scen)
+
+
+def deep_close_(a, b):
+  from harness.core import deep_close
+  return deep_close(a, b, rel=1e-9, abs_=1e-9)
+
+
+def _eval_tree(t, env):
+  """python reading of a generated decision tree (wiring.json) -> ('raise', exc) | ('build', cls, kw) | ('call', fn, kw)"""
+  def src(s):
+    if s[0] == 'param':
+      return env[s[1]]
+    if s[0] == 'lit':
+      return None if s[1][0] == 'none' else s[1][1]
+    if s[0] == 'isEq':
+      return src(s[1]) == s[2]
+    if s[0] == 'coerce':
+      return src(s[2])
+    return ('?', s)
+  def cond(c):
+    k = c[0]
+    if k == 'eq':
+      return src(c[1]) == c[2]
+    if k == 'isIn':
+      return src(c[1]) in c[2]
+    if k == 'truthy':
+      return bool(src(c[1]))
+    if k == 'isNone':
+      return src(c[1]) is None
+    if k == 'not':
+      return not cond(c[1])
+    if k == 'and':
+      return cond(c[1]) and cond(c[2])
+    return cond(c[1]) or cond(c[2])
+  while t[0] == 'ite':
+    t = t[2] if cond(t[1]) else t[3]
+  if t[0] == 'build':
+    return ('build', t[2], {k: src(v) for k, v in t[3]})
+  if t[0] == 'call':
+    return ('call', t[1], {k: src(v) for k, v in t[2]})
+  return tuple(t)
+
+
+def check_wiring_tables(ctx, parts=('init', 'cm')):
+  """translator self-check of the parts of wiring.json that are not exercised through function calls: the decision
+  tree of ClassificationAggFn.__init__ (which class, which keywords), the field-wise sums of _ConfusionMatrix, the
+  alias / copy decisions of merge_states and the order of update_state's operands — each evaluated from the table
+  in Python and compared with the real objects"""
+  import importlib
+  W = wiring_cached()
+  rng = ctx.rng
+  agg = importlib.import_module('ml_metrics._src.aggregates.classification')
+  met = importlib.import_module('ml_metrics._src.metrics.classification')
+  base = importlib.import_module('ml_metrics._src.aggregates.base')
+  # ---- __init__ tree
+  for av in ('binary', 'micro', 'macro', 'samples', 'weighted') if 'init' in parts else ():
+    for kl in (None, [], [1], [2, 1]):
+      for it in ('binary', 'multiclass', 'multiclass-multioutput', 'multiclass-indicator'):
+        env = dict(metrics=['precision'], pos_label=1, input_type=it, average=av, vocab={0: 0, 1: 1}, dtype=None, k_list=kl)
+        case = dict(t='wiring-init', average=av, k_list=kl, input_type=it, family='generated')
+        ctx.extra_evals += 1
+        ctx.count('wiring init tree', f'{av}/{"k" if kl else "-"}')
+        want = _eval_tree(W['init']['tree'], env)
+        try:
+          fn = met.ClassificationAggFn(env['metrics'], **{k: v for k, v in env.items() if k != 'metrics'})
+          inner = fn.agg_fn
+          if isinstance(inner, agg.TopKConfusionMatrixAggFn):
+            got = ('build', 'TopKConfusionMatrixAggFn', dict(vocab=inner.vocab, average=inner.average, dtype=inner.dtype,
+                                                              metrics=inner.metrics, pos_label=inner.pos_label,
+                                                              input_type=inner.input_type, k_list=inner.k_list))
+          elif isinstance(inner, agg.ConfusionMatrixAggFn):
+            got = ('build', 'ConfusionMatrixAggFn', dict(vocab=inner.vocab, average=inner.average, dtype=inner.dtype,
+                                                          metrics=inner.metrics, pos_label=inner.pos_label,
+                                                          input_type=inner.input_type))
+          else:
+            m = inner.metric if hasattr(inner, 'metric') else None
+            got = ('build', 'SamplewiseConfusionMatrixAggFn', None)
+        except Exception as e:  # pylint: disable=broad-except
+          got = ('raise', type(e).__name__)
+        ok = got[0] == want[0] and got[1] == want[1]
+        if ok and got[0] == 'build' and got[2] is not None:
+          ok = all(want[2].get(k, '<absent>') == v for k, v in got[2].items()) and set(want[2]) == set(got[2])
+        # a constructor that raises is predicted by the tree as a `build` whose class refuses the configuration
+        if not ok and want[0] == 'build' and got[0] == 'raise' and got[1] in ('ValueError', 'NotImplementedError'):
+          try:
+            getattr(agg, want[1])(**want[2])
+          except Exception as e2:  # pylint: disable=broad-except
+            ok = type(e2).__name__ == got[1]
+        if not ok:
+          ctx.extra_disagreements.append(('wiring table (ClassificationAggFn.__init__)', case,
+                                          f'the generated tree predicts {want}, the real constructor gives {got}'))
+  # ---- _ConfusionMatrix.__iadd__ / __add__ / update_state / merge_states
+  M, G = W['cm_state'], W['agg_methods']
+  for _ in range((10 if ctx.quick else 100) if 'cm' in parts else 0):
+    a = [rng.randrange(0, 9) for _ in range(4)]
+    b = [rng.randrange(10, 99) for _ in range(4)]
+    case = dict(t='wiring-cm', a=a, b=b, family='generated')
+    ctx.extra_evals += 1
+    ctx.count('wiring cm state', 'iadd/add/update/merge')
+    names = ('tp', 'tn', 'fp', 'fn')
+    def mk(v):
+      return agg._ConfusionMatrix(**{M['stored'][f]: np.asarray(x) for f, x in zip(names, v)})
+    val = dict(self=dict(zip(names, a)), other=dict(zip(names, b)))
+    def predicted(table):
+      out = []
+      for f in names:
+        l, r = table[f]
+        out.append(val[l[0]][l[1]] + (val[r[0]][r[1]] if r is not None else 0))
+      return out
+    x, y = mk(a), mk(b)
+    z = x + y
+    got_add = [int(getattr(z, f)) for f in names]
+    x += y
+    got_iadd = [int(getattr(x, f)) for f in names]
+    kept = [int(getattr(y, f)) for f in names] == b
+    if got_add != predicted(M['add']) or got_iadd != predicted(M['iadd']) or not kept:
+      ctx.extra_disagreements.append(('wiring table (_ConfusionMatrix sums)', case,
+                                      f'__add__ {got_add} / table {predicted(M["add"])}; __iadd__ {got_iadd} / table '
+                                      f'{predicted(M["iadd"])}; operand kept: {kept}'))
+    # merge_states: which state object becomes the result
+    fn = agg.ConfusionMatrixAggFn(metrics='precision')
+    s0, s1 = mk(a), mk(b)
+    step = G['merge_states']['step']
+    first = step[1] if step[0] == 'skipNone' else step
+    take = first[1] if first[0] == 'first' else ['alias']
+    pred0 = take[1] if take[0] == 'firstElse' else take[0]
+    predn = take[2] if take[0] == 'firstElse' else take[0]
+    r0 = fn.merge_states([s0, s1])
+    s2 = mk(b)
+    r1 = fn.merge_states([None, s2, mk(a)])
+    got0, gotn = ('alias' if r0 is s0 else 'copy'), ('alias' if r1 is s2 else 'copy')
+    if (got0, gotn) != (pred0, predn):
+      ctx.extra_disagreements.append(('wiring table (merge_states: alias / copy)', case,
+                                      f'first state at index 0: real {got0}, table {pred0}; at a later index: real '
+                                      f'{gotn}, table {predn}'))
+    if gotn == 'alias' or [int(getattr(s2, f)) for f in names] != b:
+      ctx.extra_oracle_failures.append((case, 'merge_states([None, s, t]) modified or returned the state s, which is '
+                                        'not the first state of the list (C11: only the first state may be modified)'))
+
+
 class C07(_Base):
-  LEAN_MODULES = ['MlModel.Properties.C07.Generated', 'MlModel.Properties.C07.GeneratedFnApi']
+  LEAN_MODULES = ['MlModel.Properties.C07.Generated', 'MlModel.Properties.C07.GeneratedFnApi',
+                  'MlModel.Properties.C07.GeneratedWiring']
   LABELS = None
 
   @classmethod
   def extra(cls, ctx):
     super().extra(ctx)
     check_fnapi_tables(ctx)
+    check_wiring_tables(ctx)
+
+  @classmethod
+  def gen_cases(cls, ctx):
+    yield from super().gen_cases(ctx)
+    yield from Wiring.gen_cases(ctx)
+
+  @staticmethod
+  def run_impl(case):
+    return Wiring.run_impl(case) if case['t'] == 'wiring' else _Base.run_impl(case)
+
+  @staticmethod
+  def model_requests(case):
+    return Wiring.model_requests(case) if case['t'] == 'wiring' else _Base.model_requests(case)
+
+  @staticmethod
+  def model_obs(case, resps):
+    return Wiring.model_obs(case, resps) if case['t'] == 'wiring' else _Base.model_obs(case, resps)
+
+  @staticmethod
+  def compare(a, b):
+    return Wiring.compare(a, b) if ('fn' in a or 'fn' in b) else _Base.compare(a, b)
+
+  @staticmethod
+  def oracle(case, obs):
+    return Wiring.oracle(case, obs) if case['t'] == 'wiring' else _Base.oracle(case, obs)
+
+  @staticmethod
+  def nontrivial(case, obs):
+    return Wiring.nontrivial(case, obs) if case['t'] == 'wiring' else _Base.nontrivial(case, obs)
+
+  @staticmethod
+  def finding(case, what):
+    return Wiring.finding(case, what) if case.get('t') == 'wiring' else None
+
+  @classmethod
+  def neighbours(cls, case, rng):
+    if case.get('t') == 'wiring':
+      yield from Wiring.neighbours(case, rng)
+    else:
+      yield from super().neighbours(case, rng)
 
   RULE = ('translator self-check: every definition generated by translate/scalar.py (list = scalar_manifest.json) on '
           'random scalar arguments (small dyadic rationals, zeros, NaN; counts 0..8), retrieval helpers on random 2-row '
@@ -560,7 +923,13 @@ class C01(_Base):
 
 
 class C11(_Base):
-  LEAN_MODULES = ['MlModel.Properties.C11.Generated']
+  LEAN_MODULES = ['MlModel.Properties.C11.Generated', 'MlModel.Properties.C11.GeneratedCm']
+
+  @classmethod
+  def extra(cls, ctx):
+    super().extra(ctx)
+    check_wiring_tables(ctx, parts=('cm',))
+
   LABELS = SUMS + POOL
   N = (60, 600)
   RULE = ('generated merge methods vs the Python methods on scalar states; oracle: every field of the receiver is the '
